@@ -49,5 +49,10 @@ def run(chk, which):
         job(chk, "prefilled-crash-F13-design-defect", dagmc.chain(False), sched="seq", maycrash=True, expect="FinalGood")
         job(chk, "switch-CreateMode=w", dagmc.chain(), sched="seq", maycrash=True, createmode="w", expect="NoWipe")
         job(chk, "switch-ResumeRule=any", dagmc.chain(), sched="seq", maycrash=True, resumerule="any", expect="SkipOnlyComplete")
+        job(chk, "sharded-crash", dagmc.sharded(), sched="seq", maxexec=1, maycrash=True)
+        job(chk, "switch-ResumeRule=count-F27", dagmc.sharded(), inv=["SkipOnlyComplete"], prop=[], sched="seq", maycrash=True,
+            resumerule="count", expect="SkipOnlyComplete")
+        job(chk, "switch-ResumeRule=count-F27-recompute", dagmc.sharded(), inv=[], prop=["NoRecomputeOfComplete"], sched="seq",
+            maycrash=True, resumerule="count", expect="NoRecomputeOfComplete")
         if t:
             job(chk, "chain-crash-dup1", dagmc.chain(), sched="seq", maxexec=2, maxdup=1, maycrash=True, timeout=3000)
